@@ -627,7 +627,7 @@ const MAXN: usize = 64;
 #[derive(Clone, Copy)]
 struct Spec {
     ty: u8,
-    behave: u8, // 0 return, 1 panic, 2 return after delivering a spurious wake-up to the own exit futex, 3/4 nested, 5 return after interrupting the main thread (SIGUSR1, no SA_RESTART) while it joins
+    behave: u8, // 0 return, 1 panic, 2 return after delivering a spurious wake-up to the own exit futex, 3/4 nested, 5 return after interrupting the main thread (SIGUSR1, no SA_RESTART) while it joins, 6 return after using 256 KiB of stack
     disp: u8,   // 0 join, 1 drop now, 2 drop later, 3 keep until the end then join, 4 drop "while finishing" (= 2 for the probe)
     inline: u8, // 1: the disposition is carried out before the next spawn
     cdk: u8,
@@ -748,6 +748,9 @@ fn body<T: Res>(c: Clo) -> T {
         spurious_wake(c.i, c.cdk, c.cda);
     } else if c.behave == 5 {
         signal_the_joiner(c.cdk, c.cda);
+    } else if c.behave == 6 {
+        black_box(deep_stack(c.tag));
+        delay(c.cdk, c.cda);
     } else {
         if c.behave == 3 || c.behave == 4 {
             nested(c.i, c.behave, c.tag);
@@ -1174,6 +1177,25 @@ fn install_sigusr1() {
     const SA_RESTORER: u64 = 0x0400_0000;
     let act = KSigaction { handler: on_sigusr1 as *const () as usize, flags: SA_RESTORER, restorer: __verif_sigrestorer as *const () as usize, mask: 0 };
     unsafe { sc::syscall!(RT_SIGACTION, 10usize, &act as *const KSigaction, 0usize, 8usize) };
+}
+
+/// behave 6: a frame of 256 KiB on the thread's stack, every page of it written and read back (an eighth of the
+/// 2 MiB the runtime maps per thread today; the threads of a batch are live together, their stacks side by side)
+#[inline(never)]
+fn deep_stack(tag: u64) -> u64 {
+    let mut buf = [0u8; 256 * 1024];
+    let mut i = 0;
+    while i < buf.len() {
+        unsafe { core::ptr::write_volatile(buf.as_mut_ptr().add(i), sbyte(tag, i >> 12)) };
+        i += 4096;
+    }
+    let mut sum = 0u64;
+    i = 0;
+    while i < buf.len() {
+        sum = sum.wrapping_mul(31).wrapping_add(unsafe { core::ptr::read_volatile(buf.as_ptr().add(i)) } as u64);
+        i += 4096;
+    }
+    sum
 }
 
 /// behave 5: once the main thread has had time to park in its join, interrupt it with a signal (three times, 150 us
